@@ -121,7 +121,7 @@ func memoryRetentionClasses(p *Program) []retentionClass {
 			for _, ins := range b.Instrs {
 				if call, ok := ins.(*ssa.Call); ok {
 					if bi, ok := call.Call.Value.(*ssa.Builtin); ok && bi.Name() == "delete" {
-						if tn, f, ok := fieldOfLoad(call.Call.Args[0]); ok && tn == "MemoryStore" && f == "items" {
+						if tn, f, ok := fieldOfLoad(call.Call.Args[0]); ok && tn == "MemoryStore" && f == p.rolesOf("MemoryStore").items {
 							return true
 						}
 					}
@@ -136,7 +136,7 @@ func memoryRetentionClasses(p *Program) []retentionClass {
 			isDel := g != nil && IsModuleFunc(g) && deletes(g)
 			if call, ok := ci.(*ssa.Call); ok && !isDel {
 				if bi, ok := call.Call.Value.(*ssa.Builtin); ok && bi.Name() == "delete" {
-					if tn, f, ok := fieldOfLoad(call.Call.Args[0]); ok && tn == "MemoryStore" && f == "items" {
+					if tn, f, ok := fieldOfLoad(call.Call.Args[0]); ok && tn == "MemoryStore" && f == p.rolesOf("MemoryStore").items {
 						isDel = true
 					}
 				}
